@@ -84,6 +84,76 @@ def pad_rules(chk, repo):
         raise AnalysisError(f'util.pad: analysed {n_a} origin instances and {n_b} cube instances (need both axes for 2-D and 3-D)')
 
 
+def window_refusal_rule(chk, repo, clause):
+    """util.subarray refuses exactly the windows that leave the array: start < 0 or stop > size, each axis against its own
+    size.  Decided in the linear domain (floor-half and min/max axioms): every returning path excludes each of the four
+    ways out, and every alternative of the refusing test implies one of them; failing a proof, small shapes and shifts are
+    searched for a window on which the code and the reference disagree."""
+    import itertools
+    from .. import linear
+    shape, shift = pair('shape'), pair('shift')
+    ash = pair('a_shape', nf.attr(S('a'), 'shape'))
+    f, paths, _ = analyse(repo, 'util.subarray', config={'shape': shape, 'shift': shift},
+                          facts={nf.attr(S('a'), 'shape').single_atom(): ash})
+    lo = [HALF(ash.items[k]) - HALF(shape.items[k]) + shift.items[k] for k in (0, 1)]
+    want = [nf.app('lt', lo[k], C(0)) for k in (0, 1)] + [nf.app('lt', ash.items[k], lo[k] + shape.items[k]) for k in (0, 1)]
+    sizes = [linear.le(linear.Lin({}, 1), linear.linearise(x)) for x in list(ash.items) + list(shape.items)]
+    rets = [p for p in paths if p.status == 'return']
+    refusals = [p for p in paths if p.status == 'raise']
+    ok, det = None, ''
+    try:
+        proved = bool(rets) and bool(refusals)
+        for p in rets:                                   # nothing that leaves the array is let through
+            for alt in _dnf(p, linear):
+                for w in want:
+                    for cons in linear.conj_constraints(alt + [(w, True)]):
+                        if linear.satisfiable(cons + sizes, _atoms(alt + [(w, True)])):
+                            proved = False
+        for p in refusals:                               # nothing that fits is refused
+            for alt in _dnf(p, linear):
+                for cons in linear.conj_constraints(alt + [(w, False) for w in want]):
+                    if linear.satisfiable(cons + sizes, _atoms(alt + [(w, False) for w in want])):
+                        proved = False
+        if proved:
+            ok, det = True, 'returning paths exclude all four ways out of the array; every refusal implies one of them'
+    except linear.NotLinear as ex:
+        det = f'guard not linear ({ex})'
+    if ok is None:
+        atoms = [x.single_atom() for x in list(ash.items) + list(shape.items) + list(shift.items)]
+        try:
+            for vals in itertools.product(range(1, 5), range(1, 5), range(1, 4), range(1, 4), range(-3, 4), range(-3, 4)):
+                env = dict(zip(atoms, vals))
+                should = any(linear.holds(w, env) for w in want)
+                taken = [p for p in paths if all(linear.holds(c, env) == bool(pol) for c, pol, _ in p.conds)]
+                if len(taken) != 1:
+                    continue
+                if (taken[0].status == 'raise') != should:
+                    ok = False
+                    a0, a1, s0, s1, h0, h1 = vals
+                    det = (f'array {(a0, a1)}, window {(s0, s1)} at shift {(h0, h1)}: the window '
+                           + ('leaves the array but is not refused (a truncated array comes back)' if should else
+                              'fits but is refused'))
+                    break
+        except linear.NotLinear as ex:
+            det = det or f'guard not evaluable ({ex})'
+    chk.ob(clause, 'R-bounds', f.key, 'a window is refused exactly when it leaves the array (each axis against its own size)', ok,
+           det or 'not decided', f.loc())
+
+
+def _dnf(p, linear):
+    alts = [[]]
+    for c, pol, _ in p.conds:
+        alts = [x + y for x in alts for y in linear.disjuncts(c, pol)]
+    return alts
+
+
+def _atoms(lits):
+    out = set()
+    for c, _ in lits:
+        out |= set(c.atoms(deep=True))
+    return out
+
+
 def helper_rules(chk, repo):
     shape, shift = pair('shape'), pair('shift')
     # subarray ≡ array_extent(shape, shift, parent=a.shape)
@@ -99,6 +169,7 @@ def helper_rules(chk, repo):
             chk.ob('C20-d', 'N-identity', f.key, f'axis {ax} window = array_extent(shape, shift, parent=a.shape)',
                    s.lo == want and s.hi - s.lo == shape.items[ax],
                    f'slice {fmt(s)}; expected start {fmt(want)}, length {fmt(shape.items[ax])}', f.loc(p.node))
+    window_refusal_rule(chk, repo, 'C20-d')
     # slice_offset: array_extent(slice_shape, offset, parent=shape).min == slice.start
     sl = Tup([Slice(S('r0'), S('r1')), Slice(S('c0'), S('c1'))])
     f, paths, _ = analyse(repo, 'helper.slice_offset', config={'slice': sl, 'shape': shape})
